@@ -84,6 +84,9 @@ func (cx *Ctx) routes() []routeInfo {
 				continue
 			}
 			ep := fx.path(args[1])
+			if ec, ok := args[1].(*ssa.Call); ok && strings.HasSuffix(calleeName(ec), "Endpoint).Relative") && len(ec.Call.Args) == 1 {
+				ep = "Relative(" + fx.path(ec.Call.Args[0]) + ")"
+			}
 			for _, h := range cx.handlerTargets(args[2]) {
 				out = append(out, routeInfo{h, ep, w.InstrPos(c)})
 			}
